@@ -100,6 +100,10 @@ def _run_model(case, ctx):
         # a parameter on the boundary of its physical range: no first-order term (still increasing for Kb > 0)
         P = dict(P, Ka=0.0)
         ctx.count("model_objects", "Quadratic/Ka=0")
+    if name == "DSLangmuir" and case["seed"] % 4 == 1:
+        # round parameters as a user types them: two equal sites, or sites in a simple ratio (exact cancellations can occur)
+        P = r.choice([{"n_m1": 2.0, "K1": 4.0, "n_m2": 2.0, "K2": 4.0}, {"n_m1": 2.0, "K1": 1.0, "n_m2": 2.0, "K2": 3.0}, {"n_m1": 1.0, "K1": 0.5, "n_m2": 3.0, "K2": 0.5}])
+        ctx.count("model_objects", "DSLangmuir/round-parameters")
     if name == "Virial" and case["seed"] % 2 == 0:
         # well-conditioned subset on which the Nelder-Mead inverse (started at n0 = p, absolute tolerances 1e-4)
         # is expected to work: p ~ n ~ O(1..10), monotone p(n); judged without any known-finding escape
@@ -154,6 +158,8 @@ def _run_model(case, ctx):
         xs = GM.sample_pressures(name, P, r, 12)
         forward, inverse, ref_fwd = m.loading, m.pressure, lambda x: GM.reference_loading(name, P, x, T)
         fwd_name, inv_name = "loading", "pressure"
+    if name == "DSLangmuir" and P.get("K1") == P.get("K2"):
+        xs = sorted(set(list(xs) + [1.0 / P["K1"], 0.5 / P["K1"], 2.0 / P["K1"]]))  # (half coverage and its neighbours, exactly representable)
     if not xs:
         ctx.count("skipped", name + "/empty-window")
         return
@@ -367,7 +373,7 @@ def _run_model(case, ctx):
                 if ref_v is not None and v2 is not None and not (close(v2, ref_v, 1e-7, 1e-300) or (math.isnan(v2) and math.isnan(ref_v))):
                     ctx.violation("%s.%s/result-depends-on-earlier-calls" % (name, label), "the same argument gives another result after a sweep in another order on the same model object", P=P, x=x, first=ref_v, later=v2)
                     break
-        for kind in ("np64", "0d", "1d-1", "1d-2", "1d-all", "1d-rotated", "1d-shuffled", "list"):
+        for kind in ("np64", "0d", "1d-1", "1d-2", "1d-all", "1d-rotated", "1d-shuffled", "list", "1d-65", "1d-129"):
             if kind == "np64":
                 arg, idx = numpy.float64(pts[0]), [0]
             elif kind == "0d":
@@ -383,6 +389,12 @@ def _run_model(case, ctx):
                 idx = list(range(len(pts)))
                 random.Random(len(pts) * 7 + 1).shuffle(idx)
                 idx = idx + idx[:1]  # with a repeated value
+                arg = numpy.array([pts[i] for i in idx])
+            elif kind in ("1d-65", "1d-129"):
+                # a long scan (more points than any block size an implementation may work in, and one over)
+                if case["seed"] % 3:
+                    continue
+                idx = [i % len(pts) for i in range(int(kind[3:]))]
                 arg = numpy.array([pts[i] for i in idx])
             elif kind == "list":
                 arg, idx = numpy.asarray(list(pts[:3])), [0, 1, 2]
